@@ -33,12 +33,13 @@ PROPS = {
         units=[('ser', r'(write|payload_sizes|gecko_codes|game_start|game_end|PayloadSizes|frame_counts|C01|Frame::len)'),
                ('codec_imm', r'(write|size|from|emit|encode_decode|lemma_)'),
                ('codec_mut', r'(read_push|with_capacity|push_null)'),
-               ('event', r'(C04\.|C03\.|C12\.|parse_event__(pre|post|start|item|end|other|splitter)|frame_close$|frame_open)'),
-               ('reader', r'(^read$|^parse_start|C12\.)')],
+               ('event', r'(C04\.|C03\.|C12\.|C08\.sized_event_accepted|parse_event__(pre|post|start|item|end|other|splitter)|frame_close$|frame_open)'),
+               ('reader', r'(^read$|^parse_start|^parse_header|^parse_payloads|^parse_game_start|expect_bytes|C12\.|C01\.|C08\.)')],
         kani=['kshim_byteorder_be', 'kshim_byteorder_write_be'],
     ),
     'C16': dict(
-        units=[('ubjson', r'(C16|write_utf8|write_map|to_utf8|to_val|to_key|read_map|lemma_)'), ('reader', r'(C16|^parse_metadata|C07\.ok_only_after_closing_brace|C07\.no_eof_swallowed_before_tail)'), ('ser', r'(C01\.file_layout)')],
+        units=[('ubjson', r'(C16|write_utf8|write_map|to_utf8|to_val|to_key|read_map|lemma_)'), ('reader', r'(C16|^parse_metadata|C07\.ok_only_after_closing_brace|C07\.no_eof_swallowed_before_tail)'), ('ser', r'(C01\.file_layout)'),
+               ('slpp', r'(read_peppi_metadata|C02\.metadata_null_is_none|C18\.game\.metadata|C02\.roundtrip\.metadata|C16)')],
         kani=[],
     ),
     'C17': dict(
@@ -78,7 +79,7 @@ PROPS = {
         kani=[],
     ),
     'C08': dict(
-        units=[('event', r'(parse_event__other|parse_event__splitter|C08)', r'parse_event__(other|splitter)$'), ('codec_mut', r'(read_push)'), ('reader', r'(C10\.skip_lands_on_game_end)'), ('startend', r'(if_more|C05\.tail|C05\.length_classes)')],
+        units=[('event', r'(parse_event__other|parse_event__splitter|C08)', r'parse_event__(other|splitter)$'), ('codec_mut', r'(read_push)'), ('reader', r'(C08\.|^parse_payloads|C10\.skip_lands_on_game_end)'), ('startend', r'(if_more|C05\.tail|C05\.length_classes)')],
         kani=[],
     ),
     'C09': dict(
